@@ -1,4 +1,5 @@
 import LyModel.Valid.LemmasCaseImpl
+import LyModel.Valid.LemmasCasesFix
 /-! `validate_idempotent` (C07) for schemas WITH `choice` / `case`, part 2: `lyd_validate_new`.  On siblings none of which is new,
 `lyd_validate_choice_r` changes nothing; the node loop changes nothing when moreover no default node is a leftover of a dead
 case (`NV`); and the first run establishes both. -/
@@ -44,11 +45,11 @@ theorem casesStep_noNew (X : SchemaX) (cx : Cx) (choice : STree) (sibs : List DN
     cases old' <;> exact ⟨rfl, rfl⟩
 
 mutual
-theorem choiceR_noNew_T (X : SchemaX) (cx : Cx) : ∀ (t : STree) (sibs : List DNode), (∀ n ∈ sibs, n.flags.new = false) →
+theorem choiceR_noNew_T (X : SchemaX) (hq : X.q.casesCountDefault = true) (cx : Cx) : ∀ (t : STree) (sibs : List DNode), (∀ n ∈ sibs, n.flags.new = false) →
     ((choiceRNode X cx t sibs).1 = sibs ∧ (choiceRNode X cx t sibs).2.evs = []) ∧
     ((choiceRCase X cx t sibs).1 = sibs ∧ (choiceRCase X cx t sibs).2.evs = [])
   | .mk s i ks, sibs, hn => by
-    have ihL := choiceR_noNew_L X cx ks sibs hn
+    have ihL := choiceR_noNew_L X hq cx ks sibs hn
     constructor
     · rw [choiceRNode]
       split
@@ -56,20 +57,20 @@ theorem choiceR_noNew_T (X : SchemaX) (cx : Cx) : ∀ (t : STree) (sibs : List D
         · exact ⟨rfl, rfl⟩
         · obtain ⟨h1, h2⟩ := casesStep_noNew X cx (.mk s i ks) sibs hn
           dsimp only
-          rw [h1, Out.append_evs, h2, ihL.2.1, ihL.2.2]
+          rw [casesStepQ_defect hq, h1, Out.append_evs, h2, ihL.2.1, ihL.2.2]
           exact ⟨rfl, rfl⟩
       · exact ⟨rfl, rfl⟩
     · rw [choiceRCase]
       exact ihL.1
-theorem choiceR_noNew_L (X : SchemaX) (cx : Cx) : ∀ (ks : List STree) (sibs : List DNode), (∀ n ∈ sibs, n.flags.new = false) →
+theorem choiceR_noNew_L (X : SchemaX) (hq : X.q.casesCountDefault = true) (cx : Cx) : ∀ (ks : List STree) (sibs : List DNode), (∀ n ∈ sibs, n.flags.new = false) →
     ((choiceRL X cx ks sibs).1 = sibs ∧ (choiceRL X cx ks sibs).2.evs = []) ∧
     ((choiceRCases X cx ks sibs).1 = sibs ∧ (choiceRCases X cx ks sibs).2.evs = [])
   | [], sibs, _ => by
     rw [choiceRL, choiceRCases]
     exact ⟨⟨rfl, rfl⟩, ⟨rfl, rfl⟩⟩
   | k :: rest, sibs, hn => by
-    have ihT := choiceR_noNew_T X cx k sibs hn
-    have ihL := choiceR_noNew_L X cx rest sibs hn
+    have ihT := choiceR_noNew_T X hq cx k sibs hn
+    have ihL := choiceR_noNew_L X hq cx rest sibs hn
     constructor
     · rw [choiceRL]
       dsimp only
@@ -103,7 +104,7 @@ theorem choiceR_sub_T (X : SchemaX) (cx : Cx) : ∀ (t : STree) (sibs : List DNo
         · exact fun _ h => h
         · intro x hx
           dsimp only at hx
-          exact casesStep_sub X cx _ sibs x ((choiceR_sub_L X cx ks _).2 x hx)
+          exact casesStepQ_sub X cx _ sibs x ((choiceR_sub_L X cx ks _).2 x hx)
       · exact fun _ h => h
     · rw [choiceRCase]
       exact (choiceR_sub_L X cx ks sibs).1
@@ -192,10 +193,10 @@ theorem newLoop_id2 (X : SchemaX) (o : VOpts) (cx : Cx) : ∀ (fuel : Nat) (rest
         simp only [Out.ofEvs_nil, Bool.false_eq_true, if_false, hnode, hde, hvn, Bool.and_false, Out.empty_append]
         rw [ih tl _ _ htl hvtl, happ]
 
-theorem validateNew_id2 (X : SchemaX) (o : VOpts) (cx : Cx) (sibs : List DNode) (hn : ∀ n ∈ sibs, n.flags.new = false)
+theorem validateNew_id2 (X : SchemaX) (hq : X.q.casesCountDefault = true) (o : VOpts) (cx : Cx) (sibs : List DNode) (hn : ∀ n ∈ sibs, n.flags.new = false)
     (hv : NV X sibs) : (validateNew X o cx sibs).1 = sibs ∧ (validateNew X o cx sibs).2.evs = [] := by
   unfold validateNew
-  obtain ⟨h1, h2⟩ := (choiceR_noNew_L X cx (X.kidsOf cx.parent) sibs hn).1
+  obtain ⟨h1, h2⟩ := (choiceR_noNew_L X hq cx (X.kidsOf cx.parent) sibs hn).1
   dsimp only
   rw [h1, Out.append_evs, h2, newLoop_id2 X o cx.keysOld _ sibs [] none hn (by simpa [NV] using hv)]
   exact ⟨rfl, rfl⟩
